@@ -41,6 +41,8 @@ def runIndexed : IState → List (List Item) → List String → List String
 def handle (args : List String) : String :=
   match args with
   | ["keyed", ls] => " | ".intercalate (runKeyed KState.init ((ls.splitOn ";").map parseList) [])
+  -- the same with a key type whose hashes collide: the model knows keys by equality only
+  | ["keyedc", ls] => " | ".intercalate (runKeyed KState.init ((ls.splitOn ";").map parseList) [])
   | ["indexed", ls] => " | ".intercalate (runIndexed IState.init ((ls.splitOn ";").map parseList) [])
   | _ => "bad-op"
 
